@@ -4,6 +4,7 @@ import (
 	"fmt"
 	"go/token"
 	"go/types"
+	"os"
 	"sort"
 	"strings"
 
@@ -626,4 +627,575 @@ func elementwiseComparesLength(p *Prog, r *Report, rule string, names ...string)
 		}
 	}
 	r.Count("side-by-side slice walks in result comparators", n)
+}
+
+// loopLeftOnlyWithError: fn processes every element of a list (the loop that ranges over the field
+// collField): a return from inside the loop carries an error that is known not to be nil there — it is
+// the tested value on the `!= nil` edge, or freshly made. `return f(x)` hands back whatever f says:
+// when that is nil the elements after x are silently never processed.
+func loopLeftOnlyWithError(p *Prog, r *Report, rule string, fn *ssa.Function, collStruct, collField, why string) {
+	if fn == nil {
+		return
+	}
+	var hdr *ssa.BasicBlock
+	for _, b := range fn.Blocks {
+		if coll, _, ok := loopScansAll(b); ok && loadsField(coll, collStruct, collField) {
+			hdr = b
+		}
+	}
+	site := stripRecvKey(fnKey(fn))
+	if hdr == nil {
+		r.Undecided(rule, site+":every-element", p.Pos(fn.Pos()), "no loop over "+collField+" found")
+		return
+	}
+	body := naturalLoop(hdr)
+	var entry *ssa.BasicBlock
+	for _, s := range hdr.Succs {
+		if body[s] {
+			entry = s
+		}
+	}
+	n := 0
+	for i, ret := range returnsOf(fn) {
+		// a return "inside the loop": dominated by the loop body's entry (return blocks themselves
+		// are exits, they never belong to the natural loop)
+		if entry == nil || !entry.Dominates(ret.Block()) || len(ret.Results) == 0 {
+			continue
+		}
+		n++
+		v := retVal(ret, len(ret.Results)-1)
+		ok := true
+		if holds, _ := guardEdges(fn, condNonNil(func(x ssa.Value) bool { return x == v })); len(holds) > 0 && onlyVia(fn, ret.Block(), holds) {
+			r.OK(rule, fmt.Sprintf("%s:return-in-loop#%d", site, i), p.Pos(ret.Pos()), "returned on the `!= nil` edge")
+			continue
+		}
+		for _, l := range phiLeaves(v, ret.Block()) {
+			if nn, known := nilStateOf(l.val, nil); known && nn {
+				continue
+			}
+			at := ret.Block()
+			if l.edge != nil {
+				at = l.edge.From
+			}
+			holds, _ := guardEdges(fn, condNonNil(func(x ssa.Value) bool { return x == l.val }))
+			if len(holds) == 0 || !onlyVia(fn, at, holds) {
+				ok = false
+			}
+		}
+		r.Check(ok, rule, fmt.Sprintf("%s:return-in-loop#%d", site, i), p.Pos(ret.Pos()), "leaves the loop only with an error that is not nil", why)
+	}
+	r.Count("returns inside the loop over "+collField, n)
+}
+
+// analysisFollowsManifest: in the two strategies' patchVulns, once the in-memory manifest was patched
+// (Manifest.PatchRequirement), success is reported only after the manifest was resolved and matched
+// again: a `return resolved, nil` that skips the re-resolution hands back the new requirements with
+// the previous round's graph and vulnerabilities, and Fixed/Introduced are computed from those.
+func analysisFollowsManifest(p *Prog, r *Report, rule string) {
+	n := 0
+	for _, rel := range []string{"guidedremediation/internal/strategy/override", "guidedremediation/internal/strategy/relax"} {
+		fn := p.Func(rel, "patchVulns")
+		if fn == nil {
+			r.Undecided(rule, "anchor:"+rel+".patchVulns", "-", "not found")
+			continue
+		}
+		site := rel[strings.LastIndex(rel, "/")+1:] + ".patchVulns"
+		isResolve := func(in ssa.Instruction) bool {
+			return isCallTo(in, fp("guidedremediation/internal/resolution"), "", "Resolve")
+		}
+		okAll := true
+		var w []string
+		forEachInstr(fn, func(_ *ssa.BasicBlock, _ int, in ssa.Instruction) {
+			c, ok := in.(*ssa.Call)
+			if !ok || !c.Call.IsInvoke() || c.Call.Method.Name() != "PatchRequirement" {
+				return
+			}
+			n++
+			pt := pointOf(in)
+			// (path search that follows the constants boolean flags take: `didPatch = true` … `if !didPatch { break }`)
+			if ww := findPathPS(pt, func(i2 ssa.Instruction) bool {
+				ret, ok := i2.(*ssa.Return)
+				return ok && len(ret.Results) == 2 && isNilConst(retVal(ret, 1)) && !isNilConst(retVal(ret, 0))
+			}, isResolve, nil); ww != nil {
+				okAll = false
+				w = ww
+			}
+		})
+		r.Check(okAll, rule, site+":re-resolved-before-success", p.Pos(fn.Pos()), "after a requirement was patched, success is returned only after re-resolution", "the strategy can return its result successfully after patching the in-memory manifest without resolving it again: the returned manifest carries the new requirements, the returned graph and vulnerability list are those of the previous round, so the reported Fixed/Introduced do not describe the patch that is written; witness path (SSA blocks): "+strings.Join(w, "→"))
+	}
+	r.Instances(rule, "PatchRequirement calls in the strategies", n, 2)
+}
+
+// protoNilReturns: the converters of binary/proto that take a pointer and return a proto message
+// answer nil exactly when the audited tests say so (the input is nil): a widened guard (no diff ID, no
+// name) silently drops a record that the result carries.
+var protoNilReturns = map[string][]string{
+	"layerDetailsToProto":         {"nil:*github.com/google/osv-scalibr/extractor.LayerDetails == param0"},
+	"packageToProto":              {"nil:*github.com/google/osv-scalibr/extractor.Package == param0"},
+	"purlToProto":                 {"nil:*github.com/google/osv-scalibr/purl.PackageURL == param0"},
+	"sourceCodeIdentifierToProto": {"nil:*github.com/google/osv-scalibr/extractor.SourceCodeIdentifier == param0"},
+}
+
+func protoConvertersKeepRecords(p *Prog, r *Report, rule string) {
+	defer func(d int, a bool) { renderDepth, renderAllocs = d, a }(renderDepth, renderAllocs)
+	renderDepth, renderAllocs = 8, true
+	n := 0
+	for _, fn := range p.FuncsIn("binary/proto") {
+		if fn.Parent() != nil || fn.Signature.Results().Len() != 1 {
+			continue
+		}
+		if _, isPtr := fn.Signature.Results().At(0).Type().Underlying().(*types.Pointer); !isPtr {
+			continue
+		}
+		hasNil := false
+		for _, ret := range returnsOf(fn) {
+			if isNilConst(retVal(ret, 0)) {
+				hasNil = true
+			}
+		}
+		key := stripRecvKey(fnKey(fn))
+		want, audited := protoNilReturns[key]
+		if !hasNil && !audited {
+			continue
+		}
+		n++
+		nonNil := func(in ssa.Instruction) bool {
+			ret, ok := in.(*ssa.Return)
+			return ok && len(ret.Results) == 1 && !isNilConst(retVal(ret, 0))
+		}
+		frozenCompare(p, r, rule, "binary/proto."+key+":nil-returns", fn, fnSkips(fn, nonNil), want, "PROTONIL:"+key,
+			"a converter of the result proto drops a record (returns nil for it) under a condition other than the audited ones: the record is in the scan result but not in the proto that is written")
+	}
+	r.Instances(rule, "proto converters that can answer nil", n, 1)
+}
+
+// noCarriedRecordState: the loops of the converters build one output record per input record from
+// that record alone: no string, pointer or interface variable declared outside the loop and assigned
+// inside it survives into the next iteration (`purl` set only when the package has a URL and read
+// unconditionally gives a URL-less package the URL of the previous one). Counters and the slices
+// being appended to are what a loop legitimately carries.
+func noCarriedRecordState(p *Prog, r *Report, rule string, relPkgs ...string) {
+	nloops := 0
+	for _, fn := range p.FuncsIn(relPkgs...) {
+		for _, hdr := range fn.Blocks {
+			if !isLoopHeader(hdr) {
+				continue
+			}
+			if _, _, ok := loopScansAll(hdr); !ok {
+				continue
+			}
+			nloops++
+			body := naturalLoop(hdr)
+			for _, in := range hdr.Instrs {
+				ph, ok := in.(*ssa.Phi)
+				if !ok {
+					break
+				}
+				switch t := ph.Type().Underlying().(type) {
+				case *types.Basic:
+					if t.Info()&types.IsString == 0 {
+						continue
+					}
+				case *types.Pointer, *types.Interface:
+				default:
+					continue
+				}
+				carried := false
+				for i, e := range ph.Edges {
+					if body[hdr.Preds[i]] && e != ssa.Value(ph) {
+						carried = true
+					}
+				}
+				if !carried {
+					continue
+				}
+				r.Fail(rule, fmt.Sprintf("%s:carried:%s", fnKey(fn), typeShort(ph.Type())), p.Pos(hdr.Instrs[len(hdr.Instrs)-1].Pos()), fmt.Sprintf("a %s variable declared outside a per-record loop of a converter is assigned inside it and keeps its value into the next iteration: a record for which it is not assigned again (a package without a URL, say) is written with the previous record's value", typeShort(ph.Type())))
+			}
+		}
+	}
+	r.Instances(rule, "per-record loops in the converters", nloops, 2)
+}
+
+// readDirListsResolvedNode: FS.ReadDir lists the children of the node the resolver returned — the
+// end of the chain — and of nothing else: the path handed to getFileNodeChildren is that node's
+// virtualPath on every path (the first hop's target is another link when the chain is longer).
+func readDirListsResolvedNode(p *Prog, r *Report, rule string) {
+	fn := p.Func(imgPkg, "FS.ReadDir")
+	if fn == nil {
+		r.Undecided(rule, "anchor:FS.ReadDir", "-", "not found")
+		return
+	}
+	var rc, gc *ssa.Call
+	forEachInstr(fn, func(_ *ssa.BasicBlock, _ int, in ssa.Instruction) {
+		if c, ok := in.(*ssa.Call); ok && c.Call.StaticCallee() != nil {
+			switch c.Call.StaticCallee().Name() {
+			case "resolveSymlink":
+				rc = c
+			case "getFileNodeChildren":
+				gc = c
+			}
+		}
+	})
+	if rc == nil || gc == nil {
+		r.Undecided(rule, "FS.ReadDir:shape", p.Pos(fn.Pos()), "ReadDir no longer resolves the node and lists its children through resolveSymlink / getFileNodeChildren")
+		return
+	}
+	arg := gc.Call.Args[len(gc.Call.Args)-1]
+	ok := true
+	for _, l := range phiLeaves(arg, gc.Block()) {
+		_, f, base, isF := fieldOf(loadAddr(l.val))
+		if !isF || f != "virtualPath" {
+			ok = false
+			continue
+		}
+		var isResolved func(v ssa.Value, d int) bool
+		isResolved = func(v ssa.Value, d int) bool {
+			if d > 6 {
+				return false
+			}
+			switch x := v.(type) {
+			case *ssa.Extract:
+				return x.Tuple == ssa.Value(rc) && x.Index == 0
+			case *ssa.UnOp:
+				if x.Op == token.MUL {
+					if al, isAl := x.X.(*ssa.Alloc); isAl {
+						ss := storesTo(al)
+						if len(ss) == 0 {
+							return false
+						}
+						for _, sv := range ss {
+							if !isNilConst(sv) && !isResolved(sv, d+1) {
+								return false
+							}
+						}
+						return true
+					}
+				}
+				return false
+			case *ssa.Phi:
+				for _, e := range x.Edges {
+					if !isNilConst(e) && !isResolved(e, d+1) {
+						return false
+					}
+				}
+				return true
+			}
+			return false
+		}
+		if !isResolved(base, 0) {
+			ok = false
+		}
+	}
+	r.Check(ok, rule, "FS.ReadDir:lists-resolved-node", p.Pos(gc.Pos()), "children of resolveSymlink(node).virtualPath", "ReadDir lists the children of a path other than the virtual path of the node the resolver returned (the first hop's target, the looked-up name): through a chain of two or more links it lists the wrong directory — usually nothing — while Stat and Open answer for the right one")
+}
+
+// requirementsPairedByKey: where old and new requirements are paired, identity is the ecosystem's
+// RequirementKey (package *and* what tells two requirements on one package apart: the npm alias, the
+// Maven classifier/type), never the bare package: (1) a map from an identity to a RequirementVersion
+// in the patch construction is keyed by manifest.RequirementKey; (2) the npm manifest's
+// PatchRequirement compares MakeRequirementKey of both sides and no two bare PackageKeys.
+func requirementsPairedByKey(p *Prog, r *Report, rule string) {
+	n := 0
+	if fn := p.Func("guidedremediation/internal/remediation", "ConstructPatches"); fn != nil {
+		forEachInstr(fn, func(_ *ssa.BasicBlock, _ int, in ssa.Instruction) {
+			mk, ok := in.(*ssa.MakeMap)
+			if !ok {
+				return
+			}
+			mt, ok := mk.Type().Underlying().(*types.Map)
+			if !ok {
+				return
+			}
+			if vn := namedOf(mt.Elem()); vn == nil || vn.Obj().Name() != "RequirementVersion" {
+				return
+			}
+			n++
+			kn := namedOf(mt.Key())
+			if kn == nil {
+				if _, isIface := mt.Key().Underlying().(*types.Interface); isIface {
+					kn, _ = types.Unalias(mt.Key()).(*types.Named)
+				}
+			}
+			okK := kn != nil && kn.Obj().Name() == "RequirementKey"
+			r.Check(okK, rule, "remediation.ConstructPatches:old-requirements-by-key", p.Pos(mk.Pos()), "old requirements are looked up by RequirementKey", "the requirements of the original manifest are indexed by something coarser than the RequirementKey (the bare package): when one package is required twice — an npm alias next to the plain dependency, a Maven artifact with two classifiers — an update is reported (and written) against the sibling requirement, which can be a downgrade of an entry nobody asked to change")
+		})
+	} else if p.Pkg("guidedremediation/internal/remediation") != nil {
+		r.Undecided(rule, "anchor:remediation.ConstructPatches", "-", "not found")
+	}
+	if fn := p.Func("guidedremediation/internal/manifest/npm", "npmManifest.PatchRequirement"); fn != nil {
+		n++
+		bare, byKey := false, false
+		forEachInstr(fn, func(_ *ssa.BasicBlock, _ int, in ssa.Instruction) {
+			bo, ok := in.(*ssa.BinOp)
+			if !ok || (bo.Op != token.EQL && bo.Op != token.NEQ) {
+				return
+			}
+			if tn := namedOf(bo.X.Type()); tn != nil && tn.Obj().Name() == "PackageKey" {
+				bare = true
+			}
+			fromKey := func(v ssa.Value) bool {
+				return derivesFrom(v, func(x ssa.Value) bool {
+					c, ok := x.(*ssa.Call)
+					return ok && c.Call.StaticCallee() != nil && c.Call.StaticCallee().Name() == "MakeRequirementKey"
+				}, deriveOpts{})
+			}
+			if fromKey(bo.X) && fromKey(bo.Y) {
+				byKey = true
+			}
+		})
+		r.Check(byKey && !bare, rule, "npm.npmManifest.PatchRequirement:matched-by-key", p.Pos(fn.Pos()), "the requirement to patch is found by MakeRequirementKey", "the npm manifest finds the requirement to patch by package only (not by MakeRequirementKey, which includes the alias): with the same package required under an alias and directly, patching one overwrites the other in the in-memory manifest, the analysis runs on a manifest that differs from the one that is written")
+	} else if p.Pkg("guidedremediation/internal/manifest/npm") != nil {
+		r.Undecided(rule, "anchor:npmManifest.PatchRequirement", "-", "not found")
+	}
+	r.Instances(rule, "places where requirements are paired", n, 1)
+}
+
+// resolvedSetKeyedByPluginName: the functions that resolve a list of names to a de-duplicated set of
+// plugins file each plugin under *its own* Name(): a plugin filed under the requested name (a group
+// with one member is not that member's name) is added again when its own name, or another group that
+// contains it, is requested too.
+func resolvedSetKeyedByPluginName(p *Prog, r *Report, rule string) {
+	n := 0
+	for _, x := range []struct{ rel, fn string }{
+		{"extractor/filesystem/list", "ExtractorsFromNames"}, {"extractor/standalone/list", "ExtractorsFromNames"}, {"detector/list", "DetectorsFromNames"},
+	} {
+		fn := p.Func(x.rel, x.fn)
+		if fn == nil {
+			continue
+		}
+		forEachInstr(fn, func(_ *ssa.BasicBlock, _ int, in ssa.Instruction) {
+			mu, ok := in.(*ssa.MapUpdate)
+			if !ok {
+				return
+			}
+			mt, ok := mu.Map.Type().Underlying().(*types.Map)
+			if !ok || !isString(mt.Key()) {
+				return
+			}
+			if _, isIface := mt.Elem().Underlying().(*types.Interface); !isIface {
+				return
+			}
+			n++
+			c, _ := callValue(mu.Key)
+			okK := c != nil && c.Call.IsInvoke() && c.Call.Method.Name() == "Name" && stripIface(c.Call.Value) == stripIface(mu.Value)
+			r.Check(okK, rule, fmt.Sprintf("%s.%s:set-keyed-by-own-name", x.rel, x.fn), p.Pos(mu.Pos()), "result[d.Name()] = d", "a resolved plugin is filed under a key other than its own Name() (the requested name): a group with a single member and that member's own name then yield the same plugin twice, so the resolved set has two plugins with one name")
+		})
+	}
+	r.Instances(rule, "insertions into the resolved-plugin sets", n, 3)
+}
+
+// locationCountCases: the SPDX export says where a package was found for every package that has
+// locations: the tests it makes on the number of locations are the audited ones (exactly one / more
+// than one). A boundary moved by one (`> 2`) leaves the packages with two locations without any.
+var spdxLocationTests = []string{
+	"1:int == len(Locations)",
+	"1:int < len(Locations)",
+	"len(Locations) == 0", "len(Locations) != 0", // an explicit "none" case adds nothing
+	// other spellings of the same two boundaries (0|1 and 1|2)
+	"2:int <= len(Locations)", "len(Locations) < 2:int", "len(Locations) <= 1:int", "1:int <= len(Locations)", "len(Locations) < 1:int", "0:int < len(Locations)", "len(Locations) <= 0:int",
+}
+
+func locationCountCases(p *Prog, r *Report, rule string) {
+	fn := p.Func("converter", "ToSPDX23")
+	if fn == nil {
+		r.Undecided(rule, "anchor:converter.ToSPDX23", "-", "not found")
+		return
+	}
+	defer func(d int, a bool) { renderDepth, renderAllocs = d, a }(renderDepth, renderAllocs)
+	renderDepth, renderAllocs = 6, true
+	got := map[string]bool{}
+	for _, f := range withAnon(fn) {
+		for _, b := range f.Blocks {
+			ifi := blockIf(b)
+			if ifi == nil {
+				continue
+			}
+			inner, _ := stripNot(ifi.Cond)
+			bo, ok := inner.(*ssa.BinOp)
+			if !ok {
+				continue
+			}
+			isLenLoc := func(v ssa.Value) bool {
+				c, ok := v.(*ssa.Call)
+				return ok && isCallTo(c, "builtin", "", "len") && loadsField(c.Call.Args[0], "Package", "Locations")
+			}
+			if !isLenLoc(bo.X) && !isLenLoc(bo.Y) {
+				continue
+			}
+			// only the boundary matters, not how the package is reached
+			g := renderCondV(inner, true)
+			if i := strings.Index(g, "builtin.len("); i >= 0 {
+				depth, j := 0, i+len("builtin.len")
+				for ; j < len(g); j++ {
+					if g[j] == '(' {
+						depth++
+					} else if g[j] == ')' {
+						depth--
+						if depth == 0 {
+							break
+						}
+					}
+				}
+				if j < len(g) {
+					g = g[:i] + "len(Locations)" + g[j+1:]
+				}
+			}
+			got[g] = true
+		}
+	}
+	if os.Getenv("SCALINT_LEARN") != "" {
+		for g := range got {
+			fmt.Fprintf(os.Stderr, "LEARN-SPDXLOC\t%q,\n", g)
+		}
+		return
+	}
+	want := map[string]bool{}
+	for _, w := range spdxLocationTests {
+		want[w] = true
+	}
+	okAll := len(got) > 0
+	var diff []string
+	for g := range got {
+		if !want[g] {
+			okAll = false
+			diff = append(diff, g)
+		}
+	}
+	sort.Strings(diff)
+	r.Check(okAll, rule, "converter.ToSPDX23:location-count-cases", p.Pos(fn.Pos()), "one location / more than one location", "ToSPDX23 distinguishes the packages by their number of locations at other boundaries than the audited ones ("+strings.Join(diff, "; ")+"): for some count ≥ 1 the source information names no location at all")
+}
+
+// scratchSlicesAreEmptied: a slice that a loop carries from one iteration to the next but that is
+// never used after the loop is a scratch buffer, not a result. Whatever an iteration reads from it
+// (ranges over, indexes, takes the length of, passes on) must have been emptied in that iteration
+// (`buf = buf[:0]`, a fresh value): on a path where it was not, the iteration works on the previous
+// element's data — a go.mod `replace` directive that has no effect re-applies the previous directive's
+// targets.
+func scratchSlicesAreEmptied(p *Prog, r *Report, rule string, fns []*ssa.Function) {
+	n := 0
+	for _, fn := range fns {
+		for _, hdr := range fn.Blocks {
+			if !isLoopHeader(hdr) {
+				continue
+			}
+			body := naturalLoop(hdr)
+			for _, in := range hdr.Instrs {
+				ph, ok := in.(*ssa.Phi)
+				if !ok {
+					break
+				}
+				if _, isSl := ph.Type().Underlying().(*types.Slice); !isSl {
+					continue
+				}
+				carried := false
+				for i, e := range ph.Edges {
+					if body[hdr.Preds[i]] && e != ssa.Value(ph) {
+						carried = true
+					}
+				}
+				if !carried {
+					continue
+				}
+				// a work list that drives the loop (`for len(queue) > 0`) is not scratch
+				if ifi := blockIf(hdr); ifi != nil && derivesFrom(ifi.Cond, func(v ssa.Value) bool { return v == ssa.Value(ph) }, deriveOpts{throughCall: func(c *ssa.CallCommon) bool { return refOf(c).is("builtin", "", "len") }}) {
+					continue
+				}
+				// values that still hold the carried contents
+				dirtyMemo := map[ssa.Value]int{}
+				var dirty func(v ssa.Value, d int) bool
+				dirty = func(v ssa.Value, d int) bool {
+					if v == ssa.Value(ph) {
+						return true
+					}
+					if st, ok := dirtyMemo[v]; ok {
+						return st == 1
+					}
+					if d > 8 {
+						return false
+					}
+					dirtyMemo[v] = 0
+					res := false
+					switch x := v.(type) {
+					case *ssa.Phi:
+						for _, e := range x.Edges {
+							if dirty(e, d+1) {
+								res = true
+							}
+						}
+					case *ssa.Slice:
+						if k, isK := constInt(x.High); x.High != nil && isK && k == 0 {
+							res = false
+						} else {
+							res = dirty(x.X, d+1)
+						}
+					case *ssa.Call:
+						if isCallTo(x, "builtin", "", "append") && len(x.Call.Args) > 0 {
+							res = dirty(x.Call.Args[0], d+1)
+						}
+					}
+					if res {
+						dirtyMemo[v] = 1
+					}
+					return res
+				}
+				// live after the loop? then it is an accumulator
+				usedAfter := false
+				var reads []ssa.Instruction
+				seen := map[ssa.Value]bool{}
+				var walk func(v ssa.Value, d int)
+				walk = func(v ssa.Value, d int) {
+					if seen[v] || d > 8 {
+						return
+					}
+					seen[v] = true
+					refs := v.Referrers()
+					if refs == nil {
+						return
+					}
+					for _, ref := range *refs {
+						if _, isDbg := ref.(*ssa.DebugRef); isDbg {
+							continue
+						}
+						if !body[ref.Block()] {
+							usedAfter = true
+							continue
+						}
+						switch x := ref.(type) {
+						case *ssa.Phi:
+							walk(x, d+1)
+						case *ssa.Slice:
+							if k, isK := constInt(x.High); x.High != nil && isK && k == 0 {
+								continue
+							}
+							walk(x, d+1)
+						case *ssa.Call:
+							if isCallTo(x, "builtin", "", "append") && len(x.Call.Args) > 0 && x.Call.Args[0] == v {
+								walk(x, d+1)
+								continue
+							}
+							reads = append(reads, ref)
+						case *ssa.IndexAddr, *ssa.Index, *ssa.Range, *ssa.Store, *ssa.Return, *ssa.MapUpdate:
+							reads = append(reads, ref)
+						}
+					}
+				}
+				walk(ph, 0)
+				if usedAfter {
+					continue
+				}
+				n++
+				bad := ""
+				for _, rd := range reads {
+					var ops [8]*ssa.Value
+					for _, op := range rd.Operands(ops[:0]) {
+						if op != nil && *op != nil && dirty(*op, 0) {
+							bad = p.Pos(rd.Pos())
+						}
+					}
+				}
+				r.Check(bad == "", rule, fmt.Sprintf("%s:scratch:%s", fnKey(fn), typeShort(ph.Type())), p.Pos(hdr.Instrs[len(hdr.Instrs)-1].Pos()), "a scratch slice is emptied before an iteration reads it", "a slice that is declared outside the loop, reused by every iteration and not used after the loop is read (at "+bad+") on a path on which this iteration has not emptied it: the iteration then works with what the previous element left there")
+			}
+		}
+	}
+	r.Count("loop-carried scratch slices", n)
 }
